@@ -182,6 +182,24 @@ Definition spec_line_height (fs rfs : Q) (v : value) : value :=
   | _ => v
   end.
 
+(* CSS 2.1 10.8.1 vertical-align: "<percentage>: raise (positive value) or lower (negative
+   value) the box by this distance (a percentage of the 'line-height' value)" of the element
+   itself.  The used line height of a computed line-height: the length, or the number times
+   the element's font size; `normal` is left to the font (None). *)
+Definition spec_used_line_height (fs : Q) (lh : value) : option Q :=
+  match lh with
+  | VDim s l u =>
+      if s ==s "normal" then None
+      else if u =? U_Scalar then Some (l * fs)%Q else Some l
+  | _ => None
+  end.
+
+Definition spec_vertical_align_percent (q fs : Q) (lh : value) : option Q :=
+  match spec_used_line_height fs lh with
+  | Some h => Some (q / 100 * h)%Q
+  | None => None
+  end.
+
 (* CSS 2.1 9.7: when the element is absolutely positioned, floated, or the root,
    `display` is set according to the table; otherwise as specified *)
 Definition spec_display (abs_or_fixed floated is_root : bool) (v : value) : value :=
